@@ -5,8 +5,11 @@ import Spine.Generated.EntityLocal
 
 Which member of the `Spine.Feat` family the tree under test is, is decided by the text of `GetOrAddFeature`. The
 translator (generator `entitylocal`) re-extracts the facts from `/repo`'s current tree; these theorems are re-checked by
-every `./check C07`. Removing the second lookup, or moving the creation out of the entity lock, breaks an obligation
-named here — before the schedule search has to find the double-creation witness.
+every `./check C07`. The facts are semantic: the function is flattened into a trace of lock / unlock / search / create /
+append / return events, following calls to helpers of the same package up to three levels, with deferred and explicit
+unlocks treated alike — so extracting the second lookup into a helper, or writing it with `slices.ContainsFunc`, keeps
+the facts, while removing it, weakening it to the type only, ignoring its result, or moving the creation out of the
+entity lock breaks an obligation named here — before the schedule search has to find the double-creation witness.
 -/
 namespace Spine.Props.C07Gen
 open Spine
